@@ -442,7 +442,19 @@ def mkSheet (rows : List (List Val)) : Sheet := mkSheetFrom 0 rows
 
 inductive StdV where
   | none | int (n : Int) | str (s : List Char) | bool (b : Bool)
+  | list (l : List (List Char)) | set (l : List (List Char))
   deriving DecidableEq, Repr, Inhabited
+
+/-- `s.split(sep)` -/
+def splitOnChar (sep : Char) (s : List Char) : List (List Char) :=
+  s.foldr (fun c acc =>
+    match acc with
+    | cur :: rest => if c = sep then [] :: cur :: rest else (c :: cur) :: rest
+    | [] => [[c]]) [[]]
+
+/-- `CellList._make_value` on a `str`: split at ',' and newline, strip, drop empty items -/
+def listItems (s : List Char) : List (List Char) :=
+  ((splitOnChar ',' (s.map fun c => if c = '\n' then ',' else c)).map strip).filter (fun i => !i.isEmpty)
 
 def inTable (ints : List Int) (strs : List (List Char)) (hasNone : Bool) : Val â†’ Bool
   | .blank => hasNone
@@ -450,7 +462,8 @@ def inTable (ints : List Int) (strs : List (List Char)) (hasNone : Bool) : Val â
   | .text s => strs.contains s
 
 /-- converter numbers: 0 `cell_str`, 1 `cell_int`, 2 `cell_bool`,
-3 `CellStr(none_values=[None, 'x'])`, 4 `CellInt(none_values=[None, 0])`, 5 `CellStr(none_values=[])` -/
+3 `CellStr(none_values=[None, 'x'])`, 4 `CellInt(none_values=[None, 0])`, 5 `CellStr(none_values=[])`,
+6 `cell_list`, 7 `cell_set`, 8 `CellList(none_values=[])` -/
 def stdConvFn (ct : Nat) (v : Val) : Except Err StdV :=
   let cellStr : Val â†’ StdV := fun v => match v with
     | .blank => .str []
@@ -468,6 +481,18 @@ def stdConvFn (ct : Nat) (v : Val) : Except Err StdV :=
   | 3 => if v = .blank || v = .text ['x'] then .ok .none else .ok (cellStr v)
   | 4 => if v = .blank || v = .int 0 then .ok .none else cellInt v
   | 5 => .ok (cellStr v)
+  | 6 => match v with
+    | .blank => .ok .none
+    | .text s => .ok (.list (listItems s))
+    | .int _ => .error .valueError
+  | 7 => match v with
+    | .blank => .ok .none
+    | .text s => .ok (.set (setOf (listItems s)))
+    | .int _ => .error .valueError
+  | 8 => match v with
+    | .blank => .ok (.list [])
+    | .text s => .ok (.list (listItems s))
+    | .int _ => .error .valueError
   | _ => .error .assertion
 
 def stdTruthy : StdV â†’ Bool
@@ -475,6 +500,8 @@ def stdTruthy : StdV â†’ Bool
   | .int n => n != 0
   | .str s => !s.isEmpty
   | .bool b => b
+  | .list l => !l.isEmpty
+  | .set l => !l.isEmpty
 
 def stdConv : Conv StdV :=
   { conv := stdConvFn, truthy := stdTruthy, isNone := fun v => v == StdV.none }
